@@ -206,12 +206,18 @@ def native(R, tier):
                 if not any(v['what'].startswith('add_role') for v in R.violations):
                     R.report_violation(f'add_role with {kg} supplied key(s), role file {"with" if hd else "without"} delegations: ' + (r2.get('violations') or [r2.get('error')])[0], {'op': 'add_role', 'keys_given': kg, 'doc_has_deleg': hd})
             else: R.differential['agree'] += 1
+    # one key source given twice must not count twice towards a threshold (also the replay of new/threshold counterexamples)
+    dk = R.replay('dup_key_sources', {})
+    R.differential['scenarios'] += 2; R.differential['agree'] += 2 - len(dk.get('violations', []))
+    dk_dev = bool(dk.get('violations'))
+    for v in dk.get('violations', [])[:1]:
+        R.report_violation('duplicate key sources: ' + v, {'op': 'dup_key_sources'})
     # the cross-party flow: genuine / same-version / under-signed / wrong keys / mixed / older / unsigned hand-overs against the real editor
     cp = R.replay('cross_party', {'seed': seed}, timeout=600)
     R.differential['scenarios'] += cp['cases']; R.differential['agree'] += cp['cases'] - len(cp['deviations'])
     for d in cp['deviations'][:2]:
         R.report_violation('cross-party update: ' + d['what'], {'op': 'cross_party', 'seed': seed, 'native': d})
-    others = [c for c in R.counterexamples if c['group'] != 'program/target-set' and not (c['group'].startswith('update/') and cp['deviations']) and not (c['group'].startswith('delegate/') and dl_dev) and not (c['group'].startswith('add_role/') and ar_dev)]
+    others = [c for c in R.counterexamples if c['group'] != 'program/target-set' and not (c['group'].startswith('update/') and cp['deviations']) and not (c['group'].startswith('delegate/') and dl_dev) and not (c['group'].startswith('add_role/') and ar_dev) and not (c['group'].startswith('new/') and dk_dev)]
     if others and not real:
         for cx in others[:3]:
             R.inconclusive.append(f'counterexample for "{cx["obligation"]}" did not show up in the native editor sweep ({st["programs"]} programs): {str(cx.get("scenario"))[:300]}')
@@ -220,6 +226,8 @@ def replay_file(R, path):
     sc = json.load(open(path))['scenario']
     if sc.get('op') == 'cross_party':
         print(json.dumps(R.replay('cross_party', {'seed': sc.get('seed', 0)}))); return 0
+    if sc.get('op') == 'dup_key_sources':
+        print(json.dumps(R.replay('dup_key_sources', {}))); return 0
     if sc.get('op') == 'add_role':
         print(json.dumps(R.replay('add_role', {'keys_given': sc.get('keys_given'), 'doc_has_deleg': sc.get('doc_has_deleg')}))); return 0
     if sc.get('op') == 'delegate_role':
